@@ -70,8 +70,15 @@ def run(ck):
             h, blk = lp[0]
             hc = di.call_at(h)
             it_ok = hc is not None and hc.name == "next" and T.resolves_to_call(di, hc.args[0], [takes[0].bb])
+            if not it_ok and hc is not None and hc.name == "next":
+                # `for idle in taken.drain(..)`: a full drain of the taken vector is the same iteration
+                for r, p_ in di.resolve(hc.args[0]):
+                    if r[0] == "call":
+                        c2 = di.call_at(r[1])
+                        if c2.name == "drain" and T.resolves_to_call(di, c2.args[0], [takes[0].bb]) and "RangeFull" in di.facts.types[op_place(c2.args[1])["t"]]["s"]:
+                            it_ok = True
             ck.verdict(it_ok, "2", "T6-provenance", di, "iterates-taken-list-in-order", "the loop iterates the taken vector itself, front to back, by value", "the loop does not iterate the taken list in order (reversed / filtered / another collection): %s" % (di.roots_str(hc.args[0]) if hc else "?"), site=di.where(h))
-            ck.verdict(hc is not None and "IntoIter" in f.types[f.peel_refs(op_place(hc.args[0])["t"])]["s"], "2", "T6-provenance", di, "by-value-iteration", "entries are consumed by the iteration (each runs at most once)", "the idle list is not iterated by value: entries are not consumed", site=di.where(h))
+            ck.verdict(hc is not None and any(x in f.types[f.peel_refs(op_place(hc.args[0])["t"])]["s"] for x in ("IntoIter", "Drain")), "2", "T6-provenance", di, "by-value-iteration", "entries are consumed by the iteration (each runs at most once)", "the idle list is not iterated by value: entries are not consumed", site=di.where(h))
             some, none = T.option_split(di, h)
             ex = [(a, t) for a, t, lab in T.loop_exit_edges(di, blk) if lab != "unwind" and di.blocks[t]["term"]["t"] != "unreachable"]
             ck.verdict(bool(none) and set(ex) <= set(none), "2", "T5-loop-exit", di, "exits-only-on-exhaustion", "the loop is left only when the list is exhausted", "the idle loop can be left early (the remaining idles are dropped without running)", site=di.where(h))
